@@ -2,7 +2,7 @@
 
 TRUSTED_BASE = [
     "T1 Verus 0.2026.09.13 + Z3 (and Kani 0.68 + CBMC 6.11 where a Kani obligation is listed)",
-    "T2 the extractor vx: item location, normalisations N1-N6 / N4b and the desugarings counted in desugarings_applied (R-FMT R-LOG R-ALL R-FOREACH R-ENUM R-EXTMAP R-UNDERSCORE R-MAPITER R-CONTINUE R-COLLECT R-SPAWN R-REC R-SEGMENT R-SLICE1 R-UFCS R-UTF8 R-CLOSPEC R-TAKE R-ASSERTEQ R-WHILELET R-SELF R-FLATMAP R-MAPCOLLECT - DESIGN 3.1 and 10.5); per-item SHA-256 in functions_under_contract",
+    "T2 the extractor vx: item location, normalisations N1-N6 / N4b and the desugarings counted in desugarings_applied (R-FMT R-LOG R-ALL R-FOREACH R-ENUM R-EXTMAP R-UNDERSCORE R-MAPITER R-CONTINUE R-COLLECT R-SPAWN R-REC R-SEGMENT R-SLICE1 R-UFCS R-UTF8 R-CLOSPEC R-TAKE R-ASSERTEQ R-WHILELET R-SELF R-FLATMAP R-MAPCOLLECT R-DEREFSET - DESIGN 3.1 and 10.5); per-item SHA-256 in functions_under_contract",
     "T3 vstd specifications of core/alloc items and the assumed std specifications listed under assumptions",
     "T5 machine arithmetic is NOT treated as mathematical: Verus checks overflow on every executable operation (the two exceptions - a depth counter and a node counter in recursive functions - are listed under assumptions of the properties concerned)",
 ]
@@ -14,16 +14,18 @@ TN = "TreeNodeWithPreviousValue."
 SM = "StorageManager."
 PROPS = {
     "C12": {
-        "verus": [("directory_publish", ["Directory.publish__tail", "Azks.get_latest_epoch"])],
+        "verus": [("directory_publish", ["Directory.publish__tail", "Directory.publish__head", "Azks.get_latest_epoch"]),
+                  ("manager", [SM + "commit_transaction", SM + "write_committed_records", SM + "tic_toc", SM + "increment_metric"])],
         "search": True,
         "always_search": True,
         "bounded_search": [{"obligation": "replay/c12#overtaken_on_clone",
-                            "bound": "ONE deterministic interleaving of two publish calls on clones of one directory (the later-starting call is overtaken between its read of the epoch record and the start of its "
-                                     "transaction), with and without the object cache, both configurations. Other interleavings are not explored"}],
+                            "bound": "TWO deterministic interleavings of two publish calls on clones of one directory (the later-starting call is overtaken between its read of the epoch record and the start of its "
+                                     "transaction; a whole call runs while the other call's commit write has been issued and has not reached storage), with and without the object cache, both configurations. Other interleavings are not explored"}],
         "scope": "partial (the single-call obligations the serialisation argument rests on; schedules themselves are outside this family): in the transactional tail of Directory::publish the batch - prepared against the "
                  "epoch read at the start of the call - is handed to batch_insert_nodes only after the epoch record was read AGAIN, bypassing the cache, by a call whose transaction had begun, and showed that same epoch "
                  "(permission epoch_confirmed, granted only from such a read); otherwise the transaction is rolled back and the call fails; a refused begin_transaction fails the call before any write; an epoch other "
-                 "than the current one is announced only after an accepted commit. BOUNDED (never counted as proved): the overtaking interleaving on clones - each call fails without effect or takes effect as a "
+                 "than the current one is announced only after an accepted commit; StorageManager::commit_transaction ends the transaction - so that another one may begin - only once the database write of its records "
+                 "has returned (accepted or rejected) or it is certain that none is attempted (permission write_attempt_over, granted by the write's return; C12-D13). BOUNDED (never counted as proved): the overtaking interleaving on clones - each call fails without effect or takes effect as a "
                  "whole, successful calls get distinct consecutive epochs, every returned (epoch, hash) pair is what the audit chain verifies against. Not decided: that begin_transaction is an atomic test-and-set "
                  "shared by clones (Arc<AtomicBool> behind &self), any other interleaving, instances that do not share a storage manager.",
         "trusted": ["knowledge tokens (txn_begun, fresh_epoch_read, epoch_confirmed, rolled_back, commit_accepted) are handed out only by the postconditions of the external calls named after them; they cannot express the "
@@ -192,15 +194,16 @@ PROPS = {
         "assumed": ["`self.storage.batch_set(updates).await?` inside the open transaction cannot fail (it only appends to the transaction log: StorageManager::batch_set returns Ok before any database call when a transaction is active) - its error exit carries no rollback"],
     },
     "C16": {
-        "verus": [("manager", [SM + "set", SM + "batch_set", SM + "commit_transaction", SM + "get", SM + "get_from_cache_only", SM + "batch_get", SM + "get_user_state",
-                               SM + "tic_toc", SM + "increment_metric", SM + "is_transaction_active", SM + "get_direct", SM + "tombstone_value_states"])],
+        "verus": [("manager", [SM + "set", SM + "batch_set", SM + "commit_transaction", SM + "write_committed_records", SM + "get", SM + "get_from_cache_only", SM + "batch_get", SM + "get_user_state",
+                               SM + "tic_toc", SM + "increment_metric", SM + "is_transaction_active", SM + "get_direct", SM + "tombstone_value_states"]), "timed_cache"],
         "search": True,
         "always_search": True,
-        "scope": "partial (ordering contract): on every path of the storage manager that fills the object cache - the three write paths (set, batch_set, transaction commit) and the "
+        "scope": "partial (ordering contract + what the cache stores): the cache's own write paths (unit timed_cache, R-DEREFSET for stores through a lock guard): TimedCache::put / batch_put store EVERY record they are given - the epoch record in its never-expiring slot, anything else in the map under the record's key - unconditionally (no comparison with what the slot held), and flush empties the map and the epoch slot;  on every path of the storage manager that fills the object cache - the three write paths (set, batch_set, transaction commit) and the "
                  "three read-fill paths (get, batch_get, get_user_state) - a record enters the cache only if the database returned it from a read or accepted it in a write, so a write "
-                 "the database rejects never changes what a later read returns; reads prefer the pending transaction value; get_direct ('ignoring any caching') holds no permission to fill the cache at all - the change poller's direct read of the epoch record cannot move the instance's cached view. Expiry, eviction, flush and concurrent tasks (state behind "
+                 "the database rejects never changes what a later read returns; reads prefer the pending transaction value; get_direct ('ignoring any caching') holds no permission to fill the cache at all - the change poller's direct read of the epoch record cannot move the instance's cached view. Expiry, memory-pressure eviction (TimedCache::clean: floating point, closures over &mut counters), hit_test's map branch and concurrent tasks (state behind "
                  "&self, wall clock) are not decided.",
-        "trusted": ["TimedCache / Database / Transaction methods external; 'the database holds this record' is a knowledge token that only their postconditions hand out",
+        "trusted": ["unit timed_cache: MODEL struct TimedCache (the Arc wrappers dropped), model RwLock / DashMap whose primitives hand out the knowledge tokens slot_written / map_inserted / map_cleared; TimedCache::clean external (assumed to evict map entries only)",
+                    "unit manager: TimedCache / Database / Transaction methods external; 'the database holds this record' is a knowledge token that only their postconditions hand out",
                     "T6 single-task sequential semantics of the async functions"],
         "assumed": [],
     },
